@@ -469,6 +469,14 @@ func ruleDstFresh(c *Ctx) {
 					continue
 				}
 				found = true
+				if hl := innermostLoop(h, hrd.Block()); hl != nil {
+					// the helper holds the entry loop itself (it reads the entries of one block)
+					okL := hnw != nil && isEntryValue(hrd.Call.Args[1], hnw, hl) && hasg.Call.Args[3] == hrd.Call.Args[1] &&
+						recvPathOfValue(h, hnw.Call.Value, 0) == recvPathOfValue(h, hrd.Call.Value, 0) &&
+						hl.Blocks[hnw.Block()] && oncePerIteration(h, hl, hnw) && oncePerIteration(h, hl, hrd) && oncePerIteration(h, hl, hasg)
+					c.Check(okL, key, P.pos(hrd.Pos()), "in the helper that reads a block's entries valueCodec.New(r) is called once per entry, in the entry loop, and its result is what is decoded into and assigned", "the value decoded into is not allocated once per map entry: entries whose codec does not overwrite everything (nulls, pointers, slices, nested maps) inherit or share the previous entry's value")
+					continue
+				}
 				l := innermostLoop(fn, cs.Block)
 				okH = hnw != nil && l != nil && oncePerIteration(fn, l, cs.Instr) &&
 					isEntryValue(hrd.Call.Args[1], hnw, nil) && hasg.Call.Args[3] == hrd.Call.Args[1] &&
